@@ -135,6 +135,10 @@ def bytes_to_human(value, prec=2):
 
 
 def guess_type(value: str) -> Any:
+    if not isinstance(value, str):
+        # Already a native value (e.g. an integer or a boolean from the TOML file)
+        return value
+
     if value.lower() in {'none', 'false', 'true'}:
         value = value.title()
 
